@@ -1,6 +1,9 @@
 // tx_env.h -- stub transaction types for Instance::parse_input_transaction (C03 fragment): a transaction is its list of
 // inputs (prevout hash, prevout index) and an identifier; parsing (parse_tx) and hashing (GetHash) are oracles.
 #pragma once
+#ifndef PRId64
+#define PRId64 "ld"
+#endif
 #ifndef VERIF_MAX_VIN
 #define VERIF_MAX_VIN 3
 #endif
@@ -12,7 +15,8 @@ struct COutPoint { uint256 hash; uint32_t n; };
 struct CTxIn { COutPoint prevout; };
 struct verif_vin { CTxIn a[VERIF_MAX_VIN]; size_t n; size_t size() const { return n; }
     const CTxIn& operator[](size_t i) const { __CPROVER_assert(i < n, "std::vector precondition: operator[] index in range"); return *(a + (i < VERIF_MAX_VIN ? i : 0)); } };
-struct CTransaction { verif_vin vin; uint256 id; const uint256& GetHash() const { return const_cast<CTransaction*>(this)->id; } };
+struct verif_vout { size_t n; size_t size() const { return n; } };      // outputs by their number
+struct CTransaction { verif_vin vin; verif_vout vout; uint256 id; const uint256& GetHash() const { return const_cast<CTransaction*>(this)->id; } };
 typedef CTransaction* CTransactionRef;     // std::shared_ptr<const CTransaction> in the real code: used as a nullable pointer here
 extern CTransaction* g_parse_tx_result;
 inline CTransactionRef parse_tx(const char* p) { return g_parse_tx_result; }
